@@ -30,7 +30,26 @@ var eqExprs = []string{
 	"(symbol \"a\")", "(quote a)", "(first (quote (a)))", "(keyword \"a\")", ":a", "\"a\"",
 }
 
+// self-contained comparisons of values that SHARE storage (views of one vector / list): the answer is structural
+var eqSharing = []struct {
+	src  string
+	want string
+}{
+	{"(let [v [1 2 3]] (= v (subvec v 0 2)))", "F"}, {"(let [v [1 2 3]] (= (subvec v 0 2) v))", "F"},
+	{"(let [v [1 2 3]] (= (subvec v 0 1) (subvec v 0 2)))", "F"}, {"(let [v [1 2 3]] (= (subvec v 0 3) v))", "T"},
+	{"(let [v [1 2]] (= v (vec v)))", "T"}, {"(let [v [1 2 3]] (= (seq v) (subvec v 0 2)))", "F"},
+	{"(let [l (list 1 2 3)] (= l (rest l)))", "F"}, {"(let [v [1 2 3]] (= {:k v} {:k (subvec v 0 2)}))", "F"},
+	{"(let [v [1 2 3]] (= [v] [(subvec v 0 2)]))", "F"}, {"(let [v [1 1 1]] (= (subvec v 0 2) (subvec v 1 3)))", "T"},
+	{"(let [v [1 2 3]] (= (take 2 v) (subvec v 0 2)))", "T"}, {"(let [v [1 2 3] w (conj v 4)] (= v (subvec w 0 3)))", "T"},
+	{"(let [m {:a nil :b 1}] (= m (assoc m :b 2)))", "F"}, {"(= {:a nil :b 1} {:a nil :b 2})", "F"}, {"(= {:a nil :b 1 :c 2} {:a nil :b 1 :c 3})", "F"},
+}
+
 func (e *eqExprEngine) generate(r *rng, n int, tier string, emit func(string)) {
+	for i := range eqSharing {
+		for rep := 0; rep < 12; rep++ { // map iteration order varies from run to run
+			emit(fmt.Sprintf("share %d %d", i, rep))
+		}
+	}
 	for i := range eqExprs {
 		for j := range eqExprs {
 			emit(fmt.Sprintf("%d %d", i, j))
@@ -39,6 +58,30 @@ func (e *eqExprEngine) generate(r *rng, n int, tier string, emit func(string)) {
 }
 
 func (e *eqExprEngine) run(payload string) string {
+	if strings.HasPrefix(payload, "share ") {
+		var k, rep int
+		if _, err := fmt.Sscanf(payload, "share %d %d", &k, &rep); err != nil || k < 0 || k >= len(eqSharing) {
+			return "bad-case"
+		}
+		ec := &evalCase{}
+		env, err := freshEnvCached(ec)
+		if err != nil {
+			return "setup-error"
+		}
+		ast, err := lisp.READ(eqSharing[k].src, nil, env)
+		if err != nil {
+			return "bad-case"
+		}
+		v, err := lisp.EVAL(context.Background(), ast, env)
+		got := "err"
+		if err == nil {
+			got = render(v)
+		}
+		if got != eqSharing[k].want {
+			return eqSharing[k].want + "\t!" + eqSharing[k].src + " ⇒ " + got + " (structurally " + eqSharing[k].want + ")"
+		}
+		return eqSharing[k].want
+	}
 	var i, j int
 	if _, err := fmt.Sscanf(payload, "%d %d", &i, &j); err != nil || i < 0 || j < 0 || i >= len(eqExprs) || j >= len(eqExprs) {
 		return "bad-case"
